@@ -6,19 +6,58 @@ package main
 type unit struct {
 	name, dir, file string
 	funcs           []string
+	hints           string   // Go declarations (types, constants, bodyless funcs) of what is used from other packages, pkg.X written pkg_X
+	actions         []string // receiver fields (interfaces to the outside) whose method calls are recorded, in order, as effects
+	drop            []string // statements calling something whose source text starts with one of these are left out (statistics, logging)
 }
 
 var units = []unit{
-	{"Auth", "auth", "credential_store.go", []string{
+	{name: "Auth", dir: "auth", file: "credential_store.go", funcs: []string{
 		"CredentialsStore.Check", "CredentialsStore.HasPerm", "CredentialsStore.HasAnyPerm", "CredentialsStore.AA"}},
-	{"StoreState", "store", "state.go", []string{"IsStaleRead"}},
-	{"Throttler", "store/throttler", "throttler.go", []string{
+	{name: "StoreState", dir: "store", file: "state.go", funcs: []string{"IsStaleRead"}},
+	{name: "Throttler", dir: "store/throttler", file: "throttler.go", funcs: []string{
 		"Throttler.touch", "Throttler.Signal", "Throttler.Release", "Throttler.Reset"}},
-	{"Cas", "internal/rsync", "cas.go", []string{"CheckAndSet.Begin", "CheckAndSet.End", "CheckAndSet.Owner"}},
-	{"Mrsw", "internal/rsync", "multir_singlew.go", []string{
+	{name: "Cas", dir: "internal/rsync", file: "cas.go", funcs: []string{"CheckAndSet.Begin", "CheckAndSet.End", "CheckAndSet.Owner"}},
+	{name: "Mrsw", dir: "internal/rsync", file: "multir_singlew.go", funcs: []string{
 		"MultiRSW.BeginRead", "MultiRSW.EndRead", "MultiRSW.BeginWrite", "MultiRSW.EndWrite", "MultiRSW.UpgradeToWriter"}},
-	{"ReadyTarget", "internal/rsync", "ready_target.go", []string{
+	{name: "ReadyTarget", dir: "internal/rsync", file: "ready_target.go", funcs: []string{
 		"ReadyTarget.Subscribe", "ReadyTarget.Unsubscribe", "ReadyTarget.Signal", "ReadyTarget.Reset"}},
-	{"WalResetWatch", "db", "wal_reset_watch.go", []string{
+	{name: "WalResetWatch", dir: "db", file: "wal_reset_watch.go", funcs: []string{
 		"WALResetWatch.Arm", "WALResetWatch.Disarm", "WALResetWatch.Check"}},
+	{name: "Marshal", dir: "command", file: "marshal.go", funcs: []string{"RequestMarshaler.Marshal"},
+		drop: []string{"stats."},
+		hints: `
+type proto_Request interface{}
+type proto_Statement struct{ Sql string }
+func (r proto_Request) GetStatements() []*proto_Statement
+func pb_Marshal(m Requester) ([]byte, error)
+`},
+	{name: "RaftConfig", dir: "store", file: "state.go", funcs: []string{"checkRaftConfiguration"},
+		hints: `
+type raft_ServerID string
+type raft_ServerAddress string
+type raft_ServerSuffrage int
+const raft_Voter raft_ServerSuffrage = 0
+type raft_Server struct {
+	Suffrage raft_ServerSuffrage
+	ID       raft_ServerID
+	Address  raft_ServerAddress
+}
+type raft_Configuration struct{ Servers []raft_Server }
+func strings_Contains(s, substr string) bool
+func net_SplitHostPort(hostport string) (host, port string, err error)
+`},
+	{name: "Queue", dir: "queue", file: "queue.go", funcs: []string{"mergeQueued"}},
+	{name: "Uploader", dir: "auto/backup", file: "uploader.go", funcs: []string{"Uploader.upload"},
+		actions: []string{"dataProvider", "storageClient"},
+		drop:    []string{"stats.", "u.logger."},
+		hints: `
+type os_File interface{}
+type progress_CountingReader interface{}
+const io_SeekStart = 0
+func (f os_File) Name() string
+func (f os_File) Seek(offset int64, whence int) (int64, error)
+func strconv_FormatUint(i uint64, base int) string
+func progress_NewCountingReader(r os_File) progress_CountingReader
+`},
 }
